@@ -4,8 +4,8 @@
 (*                                                                            *)
 (* A container value is [kind, items, added, closed, tr]:                     *)
 (*   added  the add history: every value ever admitted at the far end, in     *)
-(*          order (Queue.Add / BlockingAdd; Deque.PushBack for forward and    *)
-(*          PushFront for reverse iterators)                                  *)
+(*          order (Queue.Add / BlockingAdd; Deque.PushBack / ForcePushBack    *)
+(*          for forward, PushFront / ForcePushFront for reverse iterators)    *)
 (*   items  the values present, in iteration order (near end first)           *)
 (* Everything is expressed in iteration direction: "n" is the near end (where *)
 (* iteration starts: front for forward, back for reverse iterators), "f" the  *)
@@ -13,7 +13,8 @@
 (*                                                                            *)
 (* An iterator is a position: [p, started, tainted, fin, blocking], p = index *)
 (* in `added` of the value yielded last (0: none yet).  `tainted` = a removal *)
-(* took place after the iterator's first call (a concurrent removal).         *)
+(* (Remove, Pop, or the eviction done by a Force push on a full deque) took   *)
+(* place after the iterator's first call (a concurrent removal).              *)
 (*                                                                            *)
 (* Allowed(c, s, cancelled) is the set of observations C20 allows for one     *)
 (* call of the iterator in container state c:                                 *)
@@ -48,6 +49,16 @@ APop(c, end) ==
   ELSE {Out([c EXCEPT !.items = SubSeq(@, 1, Len(@) - 1), !.tr = TrRemove(@)], c.items[Len(c.items)])}
 
 AClose(c) == {Out([c EXCEPT !.closed = TRUE], "ok")}
+
+\* Deque.ForcePushBack (forward) / ForcePushFront (reverse) / DistributorNonBlocking.Send: a push at the far end
+\* that, on a deque at its capacity (cap() = len()), first evicts the item at the opposite - the near - end, in
+\* the same critical section.  An eviction is a removal.  Judged for fixed-capacity and unlimited deques
+\* (DESIGN.md 5.0).  Nothing happens on a closed deque (pop and addAfter both refuse).
+Evicts(c) == ~c.closed /\ c.items # <<>> /\ TrCap(c.tr) = TrLen(c.tr)
+AForce(c, v) ==
+  IF c.closed THEN {Out(c, "closed")}
+  ELSE IF Evicts(c) THEN AAdd([c EXCEPT !.items = Tail(@), !.tr = TrRemove(@)], v)
+  ELSE AAdd(c, v)
 
 \* Queue.BlockingAdd: as Add once cap() > len(); ErrQueueClosed when closed; ctx error when cancelled
 ABAdd(c, v, cancelled) ==
